@@ -548,4 +548,179 @@ example : factor (-3) = 1000000000 ∧ factor 0 = 1000000000 ∧ factor 4 = 1 / 
 example : withinBuffersB 1 2 10 (3, 1000) (1, 1000) = true ∧ withinBuffersB 1 2 10 (3, 1001) (1, 1000) = false := by
   decide +kernel
 
+/-
+  ## Sharper bounds: per-side contracts at the extreme vertices
+
+  `C11_pipeline_bounds_extend` takes one `ρ` for the whole buffer (GEOS's polygonal round caps
+  force `ρ < 1`).  Round caps sit only at the ends of open lines; at every other vertex GEOS's
+  outline reaches the full distance along the axes (mitre joins, axis-aligned circles).  The
+  theorems below give each side of the bounds its own `ρ`, assuming only that GEOS's buffer contains
+  one probe point per side: the point `ρ` buffers beyond a vertex that attains the extreme of that
+  side (cut at the domain edge).  The check evaluates these four probes on GEOS's actual buffer and
+  judges the bounds of every result side by side (`offCap`: `ρ = 1 − 10⁻⁵` where no open line end
+  attains the extreme or comes within 1 % of a buffer of it, the round-cap finding's `1 − 0.4815 %`
+  elsewhere).
+-/
+
+/-- a point of the domain whose scaled image lies in GEOS's buffer is in the result -/
+theorem C11_pipeline_probe (buf : PSet → PSet) (S : PSet) (tb fb m maxT : Rat)
+    (hm0 : 0 ≤ m) (hm : IsMaxTime buf S tb fb maxT) (p : Pt) (hp : inDomain p)
+    (hb : buf (scaled tb fb S) (scalePt tb fb p)) : pipelineSet buf S tb fb m maxT p := by
+  rw [C11_pipeline_clip_is_domain buf S tb fb m maxT hm0 hm]
+  exact ⟨hp, scalePt tb fb p, hb, (unscale_scale tb fb p).symm⟩
+
+/-- bounds of the result, side by side: if GEOS's buffer contains, for each side, the point `ρᵢ`
+    buffers beyond some vertex attaining that side's extreme (cut at the domain edge), every
+    rectangle enclosing the result reaches that far -/
+theorem C11_pipeline_bounds_extend_sides (buf : PSet → PSet) (S : PSet) (g : Geom) (b rb : Bounds)
+    (ρ₁ ρ₂ ρ₃ ρ₄ tb fb m maxT : Rat) (h1 : 0 ≤ tb) (h2 : 0 ≤ fb)
+    (hρ₁ : 0 ≤ ρ₁) (hρ₂ : 0 ≤ ρ₂) (hρ₃ : 0 ≤ ρ₃) (hρ₄ : 0 ≤ ρ₄) (hm0 : 0 ≤ m)
+    (hc : closedForm g = false) (hv : valid g = true)
+    (hm : IsMaxTime buf S tb fb maxT)
+    (hrb : ∀ p, pipelineSet buf S tb fb m maxT p → inRect rb p)
+    (p1 : ∃ c ∈ g.boundPts, c.1 = b.st ∧ buf (scaled tb fb S) (scalePt tb fb (max (c.1 - ρ₁ * tb) 0, c.2)))
+    (p2 : ∃ c ∈ g.boundPts, c.2 = b.lo ∧ buf (scaled tb fb S) (scalePt tb fb (c.1, max (c.2 - ρ₂ * fb) 0)))
+    (p3 : ∃ c ∈ g.boundPts, c.1 = b.en ∧ buf (scaled tb fb S) (scalePt tb fb (c.1 + ρ₃ * tb, c.2)))
+    (p4 : ∃ c ∈ g.boundPts, c.2 = b.hi ∧ buf (scaled tb fb S) (scalePt tb fb (c.1, min (c.2 + ρ₄ * fb) MAXF))) :
+    rb.st ≤ max (b.st - ρ₁ * tb) 0 ∧ rb.lo ≤ max (b.lo - ρ₂ * fb) 0 ∧
+    b.en + ρ₃ * tb ≤ rb.en ∧ min (b.hi + ρ₄ * fb) MAXF ≤ rb.hi := by
+  have hM := maxf_nonneg
+  have hall := valid_boundPts_inDomain g hc hv
+  have t1 : 0 ≤ ρ₁ * tb := mul_nonneg hρ₁ h1
+  have t2 : 0 ≤ ρ₂ * fb := mul_nonneg hρ₂ h2
+  have t3 : 0 ≤ ρ₃ * tb := mul_nonneg hρ₃ h1
+  have t4 : 0 ≤ ρ₄ * fb := mul_nonneg hρ₄ h2
+  refine ⟨?_, ?_, ?_, ?_⟩
+  · obtain ⟨c, hcm, e, hb⟩ := p1
+    obtain ⟨_, d2, d3⟩ := hall c hcm
+    have hd : inDomain (max (c.1 - ρ₁ * tb) 0, c.2) := ⟨le_max_right _ _, d2, d3⟩
+    have := hrb _ (C11_pipeline_probe buf S tb fb m maxT hm0 hm (max (c.1 - ρ₁ * tb) 0, c.2) hd hb)
+    rw [← e]; exact this.1
+  · obtain ⟨c, hcm, e, hb⟩ := p2
+    obtain ⟨d1, d2, d3⟩ := hall c hcm
+    have hd : inDomain (c.1, max (c.2 - ρ₂ * fb) 0) :=
+      ⟨d1, le_max_right _ _, by
+        show max (c.2 - ρ₂ * fb) 0 ≤ MAXF
+        rcases max_choice (c.2 - ρ₂ * fb) 0 with h | h <;> rw [h] <;> linarith⟩
+    have := hrb _ (C11_pipeline_probe buf S tb fb m maxT hm0 hm (c.1, max (c.2 - ρ₂ * fb) 0) hd hb)
+    rw [← e]; exact this.2.2.1
+  · obtain ⟨c, hcm, e, hb⟩ := p3
+    obtain ⟨d1, d2, d3⟩ := hall c hcm
+    have hd : inDomain (c.1 + ρ₃ * tb, c.2) := ⟨by show 0 ≤ c.1 + ρ₃ * tb; linarith, d2, d3⟩
+    have := hrb _ (C11_pipeline_probe buf S tb fb m maxT hm0 hm (c.1 + ρ₃ * tb, c.2) hd hb)
+    rw [← e]; exact this.2.1
+  · obtain ⟨c, hcm, e, hb⟩ := p4
+    obtain ⟨d1, d2, d3⟩ := hall c hcm
+    have hd : inDomain (c.1, min (c.2 + ρ₄ * fb) MAXF) :=
+      ⟨d1, by
+        show 0 ≤ min (c.2 + ρ₄ * fb) MAXF
+        rcases min_choice (c.2 + ρ₄ * fb) MAXF with h | h <;> rw [h] <;> linarith, min_le_right _ _⟩
+    have := hrb _ (C11_pipeline_probe buf S tb fb m maxT hm0 hm (c.1, min (c.2 + ρ₄ * fb) MAXF) hd hb)
+    rw [← e]; exact this.2.2.2
+
+/-- what a flag of `offCap` means: that side's extreme is attained (by a vertex `compute_bounds`
+    ranges over), and every vertex attaining it -- every vertex within `μ` buffers of it -- is not
+    the end of an open line (so its probe is judged with `ρ` next to 1) -/
+theorem C11_offcap_vertex (g : Geom) (b : Bounds) (tb fb μ : Rat) (hb : g.bounds = some b) :
+    ((offCap g b tb fb μ)[0]? = some true → ∃ c ∈ g.boundPts, c.1 = b.st ∧ ∀ e ∈ lineEnds g, b.st + μ * tb < e.1) ∧
+    ((offCap g b tb fb μ)[1]? = some true → ∃ c ∈ g.boundPts, c.2 = b.lo ∧ ∀ e ∈ lineEnds g, b.lo + μ * fb < e.2) ∧
+    ((offCap g b tb fb μ)[2]? = some true → ∃ c ∈ g.boundPts, c.1 = b.en ∧ ∀ e ∈ lineEnds g, e.1 < b.en - μ * tb) ∧
+    ((offCap g b tb fb μ)[3]? = some true → ∃ c ∈ g.boundPts, c.2 = b.hi ∧ ∀ e ∈ lineEnds g, e.2 < b.hi - μ * fb) := by
+  obtain ⟨_, ⟨p1, hp1, e1⟩, ⟨p2, hp2, e2⟩, ⟨p3, hp3, e3⟩, ⟨p4, hp4, e4⟩⟩ :=
+    SE.Proofs.Lemmas.Bounds.ptsBounds_isBoundsOf _ _ hb
+  refine ⟨?_, ?_, ?_, ?_⟩ <;>
+  · intro h
+    simp only [offCap, List.getElem?_cons_zero, List.getElem?_cons_succ, Option.some.injEq, Bool.not_eq_true',
+      List.any_eq_false, decide_eq_true_eq, not_le] at h
+    first
+    | exact ⟨p1, hp1, e1, h⟩
+    | exact ⟨p2, hp2, e2, h⟩
+    | exact ⟨p3, hp3, e3, fun e he => by have := h e he; linarith⟩
+    | exact ⟨p4, hp4, e4, fun e he => by have := h e he; linarith⟩
+
+/-- points, multi-points, polygons, multi-polygons and closed lines have no open line end: every
+    side of their bounds is judged at full sharpness -/
+theorem C11_offcap_all (g : Geom) (b : Bounds) (tb fb μ : Rat) (he : lineEnds g = []) :
+    offCap g b tb fb μ = [true, true, true, true] := by
+  simp [offCap, he]
+
+example : lineEnds (.polygon [[(0, 0), (3, 0), (3, 5), (0, 0)]]) = [] := by decide +kernel
+example : lineEnds (.lineString [(1, 3), (2, 7), (4, 5), (1, 3)]) = [] := by decide +kernel
+example : offCap (.lineString [(1, 3), (2, 7), (4, 5)]) ⟨1, 3, 4, 7⟩ 1 1 (1 / 100) = [false, false, false, true] := by decide +kernel
+example : offCap (.lineString [(1, 3), (2, 7), (4, 5), (1, 3)]) ⟨1, 3, 4, 7⟩ 1 1 (1 / 100) = [true, true, true, true] := by decide +kernel
+-- an interior vertex attains the end time, but so does the end of the line: the cap is there
+example : offCap (.lineString [(1, 3), (4, 7), (4, 5)]) ⟨1, 3, 4, 7⟩ 1 1 0 = [false, false, false, true] := by decide +kernel
+-- an end within 1 % of the buffer of the extreme counts as attaining it
+example : offCap (.lineString [(1, 3), (4, 7), (399 / 100, 5)]) ⟨1, 3, 4, 7⟩ 2 1 (1 / 100) = [false, false, false, true] ∧
+    offCap (.lineString [(1, 3), (4, 7), (399 / 100, 5)]) ⟨1, 3, 4, 7⟩ (1 / 2) 1 (1 / 100) = [false, false, true, true] := by decide +kernel
+
+/-
+  ## Calls: positional / keyword / omitted buffers, and histories
+-/
+
+/-- every way of passing the two buffers binds them to the same parameters: by position, by
+    keyword in either order, mixed, and an omitted buffer is 0; a buffer given twice or a third
+    positional value is a `TypeError` (`none`); unknown keywords (options for shapely) bind nothing -/
+theorem C11_call_binding (a b : Rat) (extra : List (String × Rat))
+    (hx : extra.lookup "time_buffer" = none) (hy : extra.lookup "freq_buffer" = none) :
+    boundBuffers bufferSig [a, b] extra = some (a, b) ∧
+    boundBuffers bufferSig [] (("time_buffer", a) :: ("freq_buffer", b) :: extra) = some (a, b) ∧
+    boundBuffers bufferSig [] (("freq_buffer", b) :: ("time_buffer", a) :: extra) = some (a, b) ∧
+    boundBuffers bufferSig [a] (("freq_buffer", b) :: extra) = some (a, b) ∧
+    boundBuffers bufferSig [a] extra = some (a, 0) ∧
+    boundBuffers bufferSig [] (("freq_buffer", b) :: extra) = some (0, b) ∧
+    boundBuffers bufferSig [] (("time_buffer", a) :: extra) = some (a, 0) ∧
+    boundBuffers bufferSig [] extra = some (0, 0) ∧
+    boundBuffers bufferSig [a] (("time_buffer", a) :: extra) = none ∧
+    (∀ c, boundBuffers bufferSig [a, b, c] extra = none) := by
+  simp [boundBuffers, bindArgs, bufferSig, List.lookup, hx, hy]
+
+private theorem bindArgs_nil (sig : Sig) (kw : List (String × Rat)) :
+    bindArgs sig [] kw = some (sig.map (fun nd => (nd.1, (kw.lookup nd.1).getD nd.2))) := by
+  induction sig with
+  | nil => simp [bindArgs]
+  | cons x xs ih => obtain ⟨n, d⟩ := x; simp [bindArgs, ih]
+
+/-- the binding of the two buffers is a property of the head of the signature table alone: whatever
+    optional parameters follow `time_buffer = 0, freq_buffer = 0`, a call with at most two positional
+    values after the geometry binds the buffers as `bufferSig` does (the obligation regenerated from
+    `inspect.signature(buffer_geometry)` shows that the extracted table starts with `bufferSig`) -/
+theorem C11_signature_table (rest : Sig) (pos : List Rat) (kw : List (String × Rat)) (h : pos.length ≤ 2) :
+    boundBuffers (bufferSig ++ rest) pos kw = boundBuffers bufferSig pos kw := by
+  match pos, h with
+  | [], _ =>
+    simp [boundBuffers, bufferSig, bindArgs_nil, List.lookup]
+  | [a], _ =>
+    simp only [boundBuffers, bufferSig, List.cons_append, List.nil_append, bindArgs, bindArgs_nil]
+    cases h1 : (List.lookup "time_buffer" kw).isSome <;> simp [List.lookup]
+  | [a, b], _ =>
+    simp only [boundBuffers, bufferSig, List.cons_append, List.nil_append, bindArgs, bindArgs_nil]
+    cases h1 : (List.lookup "time_buffer" kw).isSome <;> cases h2 : (List.lookup "freq_buffer" kw).isSome <;>
+      simp [List.lookup]
+
+/-- a session is judged call by call: whatever was called before (and with whatever options), a
+    call returns what the same call returns in a fresh process -/
+theorem C11_history_stepwise (lib : List (String × String) → Geom → Rat → Rat → Option Geom)
+    (pre post : List Call) (c : Call) :
+    (runHistory lib (pre ++ c :: post))[pre.length]? = some (bufferGeometry (lib c.opts) c.g c.tb c.fb) := by
+  induction pre with
+  | nil => simp [runHistory]
+  | cons x xs ih => simpa [runHistory] using ih
+
+/-- options for shapely are irrelevant for time stamps, intervals and boxes (they are not passed
+    on), and a negative buffer is rejected before they are looked at -/
+theorem C11_closed_ignores_options (lib lib' : Geom → Rat → Rat → Option Geom) (g : Geom) (tb fb : Rat)
+    (h : closedForm g = true ∨ tb < 0 ∨ fb < 0) :
+    bufferGeometry lib g tb fb = bufferGeometry lib' g tb fb := by
+  rcases h with h | h
+  · cases g <;> simp_all [bufferGeometry, closedForm]
+  · simp [bufferGeometry, h]
+
+example : runHistory (fun o _ _ _ => if o = [] then some (.point 1 1) else none)
+    [⟨.point 0 0, 1, 1, [("single_sided", "true")]⟩, ⟨.point 0 0, 1, 1, []⟩, ⟨.timeStamp 1, 3, 7, [("quad_segs", "2")]⟩]
+    = [none, some (.point 1 1), some (.timeInterval 0 4)] := by decide +kernel
+example : boundBuffers bufferSig [2] [("freq_buffer", 5), ("mitre_limit", 1)] = some (2, 5) := by decide +kernel
+example : boundBuffers [("freq_buffer", 0), ("time_buffer", 0)] [2, 5] [] = some (5, 2) := by decide +kernel  -- a swapped signature binds differently
+example : boundBuffers (bufferSig ++ [("quad_segs", 8)]) [2] [("freq_buffer", 5), ("quad_segs", 3)] = some (2, 5) := by decide +kernel
+
 end SE.Proofs.C11
